@@ -54,7 +54,9 @@ func Check() *engine.Check {
 			"in-memory cache: each token verifies and carries the ttl and claims of the member that issued it. (D) rotations: every sequence of 2 " +
 			"and 3 out of 8 key store versions (same ids with new keys, swapped ids, reordered, fewer entries, generated ids, certificate added) " +
 			"reloaded into one signer behind ONE long-lived management handler, JWKS read after every step or only at the end: the endpoint lists " +
-			"exactly the keys in effect and fresh tokens verify against it. states = distinct (results, precedence) histories of " +
+			"exactly the keys in effect and fresh tokens verify against it; the certificate expiry metrics (real OpenTelemetry SDK, manual reader) are " +
+			"collected before every read of the key set. (E) holders: every pair and triple of 6 key stores (same key id for different keys, shared " +
+			"keys, generated ids) behind finalizers of their own publishing through one registry: every token verifies against the common key set. states = distinct (results, precedence) histories of " +
 			"(A) plus distinct configurations of (B); transitions = scheduling decisions; traces = schedules + configurations executed.",
 		Assumptions: []string{
 			"code between scheduling points (go-jose, keystore parsing) is atomic; closed by the free-running -race pass",
@@ -520,6 +522,7 @@ func run(c *engine.Ctx) {
 
 	runFamilies(c, &idx)
 	runRotations(c, &idx)
+	runHolders(c, &idx)
 }
 
 func replay(c *engine.Ctx, raw json.RawMessage) {
@@ -537,7 +540,7 @@ func replay(c *engine.Ctx, raw json.RawMessage) {
 		Part string `json:"part"`
 	}
 
-	if json.Unmarshal(raw, &part) == nil && (part.Part == "families" || part.Part == "rotations") {
+	if json.Unmarshal(raw, &part) == nil && (part.Part == "families" || part.Part == "rotations" || part.Part == "holders") {
 		defer func() {
 			if workDir != "" {
 				_ = os.RemoveAll(workDir)
@@ -554,6 +557,11 @@ func replay(c *engine.Ctx, raw json.RawMessage) {
 
 			_ = json.Unmarshal(raw, &fc)
 			sig, sum = execFamily(&fc)
+		} else if part.Part == "holders" {
+			var hc HolderCase
+
+			_ = json.Unmarshal(raw, &hc)
+			sig, sum = execHolders(&hc)
 		} else {
 			var roc RotationCase
 
